@@ -3,6 +3,8 @@ package transarea
 import (
 	"flag"
 	"fmt"
+	"regexp"
+	"strings"
 	"sync"
 
 	"dawgsverif/areas/frontarea"
@@ -46,6 +48,7 @@ func Total(args []string) {
 	outp := fs.String("out", "trace.ndjson", "")
 	limit := fs.Int("limit", 0, "")
 	workers := fs.Int("workers", 8, "")
+	repeats := fs.Int("repeats", 6, "further sequential repetitions")
 	fs.Parse(args)
 	w := tr.Create(*outp)
 	ms := models(*limit)
@@ -65,6 +68,45 @@ func Total(args []string) {
 			ms = append(ms, frontarea.Model{Text: text, Tag: "parameters", Query: q})
 		}
 	}
+	// every read query of the corpus once more as a two-part query: its pattern variables handed through a WITH to
+	// the original RETURN, so that whatever the optimiser rewrites sits in a non-final part
+	lastReturn := regexp.MustCompile(`(?i)\breturn\b`)
+	for _, m := range append([]frontarea.Model{}, ms...) {
+		sq := m.Query.SingleQuery
+		if sq == nil || sq.SinglePartQuery == nil || sq.SinglePartQuery.Return == nil || len(sq.SinglePartQuery.UpdatingClauses) > 0 || len(sq.SinglePartQuery.ReadingClauses) == 0 {
+			continue
+		}
+		syms := symbolsOf(m.Query)
+		var carried []string
+		for _, v := range syms.vars {
+			if r := syms.roles[v]; r == "node" || r == "rel" || r == "path" {
+				carried = append(carried, v)
+			}
+		}
+		locs := lastReturn.FindAllStringIndex(m.Text, -1)
+		if len(carried) == 0 || len(locs) == 0 {
+			continue
+		}
+		at := locs[len(locs)-1][0]
+		text := m.Text[:at] + "with " + strings.Join(carried, ", ") + " " + m.Text[at:]
+		if q, err := frontend.ParseCypher(frontend.NewContext(), text); err == nil {
+			ms = append(ms, frontarea.Model{Text: text, Tag: "two-part-variant", Query: q})
+		}
+	}
+	// several items wherever the translator keeps items in a map or a set
+	for _, text := range []string{"match (n) remove n.alpha, n.beta, n.gamma, n.delta return n", "match (n) set n.a = 1, n.b = 2, n.c = 3, n.d = 4, n.e = 5 return n",
+		"match (n) set n:A:B:K:K0 return n", "match (n) remove n:A:B:K return n", "match (n) set n:A, n.x = 1 remove n:B, n.y, n.z return n",
+		"create (n:A:B:K {a: 1, b: 2, c: 3, d: 4, e: 5}) return n", "match (n {a: 1, b: 2, c: 3, d: 4}) return n", "match (n) set n += {a: 1, b: 2, c: 3, d: 4} return n",
+		"match (n) where n.a = $a and n.b = $b and n.c = $c and n.d = $d and n.e = $e return n", "match (a), (b), (c), (d) where a.x = b.x and c.x = d.x return a, b, c, d",
+		"match (a)-[r]->(b) set a.x = 1, b.y = 2, r.z = 3 remove a.p, b.q, r.s return a, b, r", "match (a)-[r]->(b) delete r, a, b",
+		"match (n) where n:A or n:B or n:K or n:K0 return n", "match (n) return n.a, n.b, n.c, n.d, count(n)", "match (n) with n.a as a, n.b as b, n.c as c, collect(n) as ns return a, b, c, ns",
+		"match (a)-[r:E|E0|E1]->(b) where r.x = 1 and r.y = 2 return a, r, b", "match (n) where n.x in [$a, $b, $c] or n.y in [$d, $e] return n",
+		"match (a)-[r]->(b) set r.a = 1, r.b = 2 remove r.c, r.d, r.e return r", "merge (n:A {k: 1}) on create set n.a = 1, n.b = 2, n.c = 3 on match set n.d = 4, n.e = 5 return n"} {
+		if q, err := frontend.ParseCypher(frontend.NewContext(), text); err == nil {
+			ms = append(ms, frontarea.Model{Text: text, Tag: "multi-item", Query: q})
+		}
+	}
+	mapper = mapperFor(ms)
 	hid := 0
 	for _, m := range ms {
 		syms := symbolsOf(m.Query)
@@ -93,6 +135,9 @@ func Total(args []string) {
 			modelBefore, paramsBefore := walkarea.DumpOf(m.Query), walkarea.DumpOf(params)
 			first := translateOnce(m.Query, mapper, params)
 			second := translateOnce(m.Query, mapper, params)
+			for rep := 0; rep < *repeats && second.ok == first.ok && second.sql == first.sql; rep++ {
+				second = translateOnce(m.Query, mapper, params)
+			}
 			outs := make([]outcome, *workers)
 			var wg sync.WaitGroup
 			for g := range outs {
